@@ -34,6 +34,10 @@ def retErrTy : Ty → ErrTy
   | .path (.cons "Result" (.cons _ (.cons (.path (.cons "Self" .nil (.cons "Error" .nil .nil))) .nil)) .nil) => .self
   | .path (.cons "Result" (.cons _ (.cons (.path (.cons "StdError" .nil .nil)) .nil)) .nil) => .std
   | .path (.cons "Result" _ .nil) => .contract
+  -- the corpus prelude's `type QResultB<E> = Result<RespB, E>`
+  | .path (.cons "QResultB" (.cons (.path (.cons "Self" .nil (.cons "Error" .nil .nil))) .nil) .nil) => .self
+  | .path (.cons "QResultB" (.cons (.path (.cons "StdError" .nil .nil)) .nil) .nil) => .std
+  | .path (.cons "QResultB" _ .nil) => .contract
   | _ => .std
 
 /-- positional call built by a dispatch arm: the struct pattern binds *by field name*, the call passes
